@@ -8,8 +8,8 @@ use graaf::{Arcs, HasArc, Order, Size, Vertices};
 /// ids worth probing: V plus ids just outside and a far id.
 pub fn probe_ids(m: &Model) -> Vec<usize> {
     let mut ids: Vec<usize> = m.vert_list();
-    let top = m.verts.iter().max().map_or(0, |x| x + 1);
-    for x in [top, top + 1, m.n(), m.n() + 1, 1 << 20] {
+    let top = m.verts.iter().max().map_or(0, |x| x.wrapping_add(1));
+    for x in [top, top.wrapping_add(1), m.n(), m.n() + 1, 1 << 20] {
         if !ids.contains(&x) {
             ids.push(x);
         }
